@@ -12,6 +12,7 @@ HARNESSES = [
     ("c13", "rcfork", ()),
     ("c14", "rcfork", ()),
     ("c15", "rcfork", ()),
+    ("c16", "rcfork", ()),
     ("c04", "rcfork", ()),
     ("fz_bitmap_hwloc", "fuzz", ("-DFMT=0",), "fz_bitmap"),
     ("fz_bitmap_list", "fuzz", ("-DFMT=1",), "fz_bitmap"),
@@ -67,7 +68,7 @@ def replay_one(ctx, path):
 
 
 # engine cfg.name -> source file name
-ALIASES = {"c01_load": "c01", "c02_history": "c02", "c03_bitmap": "c03", "c08_restrict": "c08", "c12_dup": "c12", "c13_distances": "c13", "c14_memattrs": "c14", "c15_cpukinds": "c15", "c04_strings": "c04"}
+ALIASES = {"c01_load": "c01", "c02_history": "c02", "c03_bitmap": "c03", "c08_restrict": "c08", "c12_dup": "c12", "c13_distances": "c13", "c14_memattrs": "c14", "c15_cpukinds": "c15", "c16_diff": "c16", "c04_strings": "c04"}
 
 
 def C01(ctx):
@@ -129,4 +130,8 @@ def C14(ctx):
     std_check(ctx, [dict(harness="c14", aliases=["c14_memattrs"], cases=(700, 20000), max_ops=16)])
 
 
-PROPS = {"C01": C01, "C14": C14, "C13": C13, "C15": C15, "C08": C08, "C12": C12, "C02": C02, "C03": C03, "C04": C04}
+def C16(ctx):
+    std_check(ctx, [dict(harness="c16", aliases=["c16_diff"], cases=(700, 20000), max_ops=6)])
+
+
+PROPS = {"C01": C01, "C16": C16, "C14": C14, "C13": C13, "C15": C15, "C08": C08, "C12": C12, "C02": C02, "C03": C03, "C04": C04}
